@@ -159,7 +159,7 @@ def oracle(ctx):
             extra['d0/zz-isdir.volume'] = None
         spread = {}
         for n in names:
-            d = rnd.choice(['d0/', 'd1/', 'd0/sub/', 'd2/deep/er/'])
+            d = rnd.choice(['d0/', 'd1/', 'd0/sub/', 'd2/deep/er/', 'd0-more/', 'd1x/sub/'])   # (siblings whose names begin alike are different directories)
             spread[d + n] = fs[n]
             if n in drop:
                 spread[d + n + '.d/10-own.conf'] = drop[n]
